@@ -66,8 +66,8 @@ func libGeometry(g geom.Geometry, gs *gridSpec, ids []int, id int, cfg snap.Conf
 
 func checkC13(e *env) {
 	r := e.res
-	r.Rule = "the real binary (go build -tags verif of /repo) on random source GeoPackages: 1-3 tables (POLYGON, MULTIPOLYGON with 1-3 parts, POINT/LINESTRING), 0-25 features each, polygons from the valid families in a NetherlandsRDNewQuad window " +
-		"plus sub-pixel polygons that collapse and (with -iog) polygons outside the grid, 1-5 attribute columns with NULLs, geometry column anywhere; id lists of 1-3 ids, page sizes 1..7 and 1000, all keep/reverse/ignore flags (long names and aliases), " +
+	r.Rule = "the real binary (go build -tags verif of /repo) on random source GeoPackages: 1-3 tables (POLYGON, MULTIPOLYGON with 1-3 parts, POINT/LINESTRING/MULTIPOINT with some empty geometries, GEOMETRY holding polygons among other kinds), 0-25 features each, polygons from the valid families in a NetherlandsRDNewQuad window " +
+		"plus sub-pixel polygons that collapse and (with -iog) polygons outside the grid, 1-5 attribute columns with NULLs, geometry column anywhere; id lists of 1-3 ids, page sizes 1..7 and 1000, all keep/reverse/ignore flags (each option by its long name, its alias or its environment variable), " +
 		"target paths over a safe alphabet (dots in directory and file names, no extension), with pre-existing target files of other content when overwrite is on. Expected content is computed by calling snap.SnapPolygon in-process. " +
 		"Non-trivial = at least two ids and a polygon table where some feature is omitted or becomes a multipolygon for some id; distinct by command line + source content."
 	bin := texelBin()
@@ -105,12 +105,14 @@ func checkC13(e *env) {
 		var tables []*tableSpec
 		ntab := 1 + e.rng.Intn(3)
 		for ti := 0; ti < ntab; ti++ {
-			gt := []gpkg.GeometryType{gpkg.Polygon, gpkg.Polygon, gpkg.MultiPolygon, gpkg.Point, gpkg.Linestring}[e.rng.Intn(5)]
+			gt := []gpkg.GeometryType{gpkg.Polygon, gpkg.Polygon, gpkg.MultiPolygon, gpkg.Point, gpkg.Linestring, gpkg.Geometry, gpkg.MultiPoint}[e.rng.Intn(7)]
 			if ti == 0 {
 				gt = gpkg.Polygon
 			}
 			t := randTable(e.rng, fmt.Sprintf("t%d_%s", ti, strings.ToLower(gt.String())), gt, e.rng.Intn(26), 0)
-			t.srs = 28992
+			if gt == gpkg.Polygon || gt == gpkg.MultiPolygon || gt == gpkg.Geometry { // the other tables keep a reference system of their own
+				t.srs = 28992
+			}
 			pix := pixelSize(rd, ids[0])
 			for i := range t.geoms {
 				switch gt {
@@ -170,27 +172,43 @@ func checkC13(e *env) {
 			r.Dist["cli:pre-existing-targets"]++
 		}
 		idsJSON, _ := json.Marshal(ids)
-		args := []string{"-s", src, "-t", target, "-tms", "NetherlandsRDNewQuad", "-z", string(idsJSON), "-p", fmt.Sprint(pagesize)}
-		long := e.rng.Intn(2) == 0
-		add := func(on bool, name, alias string) {
-			if on {
-				if long {
-					args = append(args, "--"+name)
-				} else {
-					args = append(args, "-"+alias)
+		// every option is given by its long name, by its alias or through the environment (the flag's name in capitals)
+		args := []string{"-s", src, "-t", target, "-tms", "NetherlandsRDNewQuad"}
+		var envs []string
+		give := func(name, alias, value string, isBool bool) {
+			switch e.rng.Intn(3) {
+			case 0:
+				args = append(args, "--"+name)
+				if !isBool {
+					args = append(args, value)
 				}
+			case 1:
+				args = append(args, "-"+alias)
+				if !isBool {
+					args = append(args, value)
+				}
+			default:
+				envs = append(envs, strings.ToUpper(name)+"="+value)
+				r.Dist["cli:option-through-environment"]++
 			}
 		}
-		add(cfg.KeepPointsAndLines, "keeppointsandlines", "pl")
-		add(cfg.ReverseWindingOrder, "reversewindingorder", "rwo")
-		add(cfg.IgnoreOutsideGrid, "ignoreoutsidegrid", "iog")
-		add(overwrite, "overwrite", "o")
+		give("tilematrices", "z", string(idsJSON), false)
+		give("pagesize", "p", fmt.Sprint(pagesize), false)
+		for _, b := range []struct {
+			on          bool
+			name, alias string
+		}{{cfg.KeepPointsAndLines, "keeppointsandlines", "pl"}, {cfg.ReverseWindingOrder, "reversewindingorder", "rwo"}, {cfg.IgnoreOutsideGrid, "ignoreoutsidegrid", "iog"}, {overwrite, "overwrite", "o"}} {
+			if b.on {
+				give(b.name, b.alias, "true", true)
+			}
+		}
 		cmd := exec.Command(bin, args...)
+		cmd.Env = cleanEnv(envs)
 		var stderr bytes.Buffer
 		cmd.Stderr = &stderr
 		cmd.Stdout = &stderr
 		runErr := cmd.Run()
-		op := "texel " + strings.Join(args, " ")
+		op := strings.TrimSpace(strings.Join(envs, " ") + " texel " + strings.Join(args, " "))
 		desc := op + fmt.Sprintf(" | %d table(s):", len(tables))
 		for _, t := range tables {
 			desc += fmt.Sprintf(" %s(%d rows, %d cols)", t.name, len(t.rows), len(t.cols))
@@ -304,4 +322,18 @@ func checkC13(e *env) {
 		}
 		os.RemoveAll(caseDir)
 	}
+}
+
+// cleanEnv: the harness's environment without any variable the tool reads, plus the given ones
+func cleanEnv(extra []string) []string {
+	var out []string
+	for _, kv := range os.Environ() {
+		name := strings.SplitN(kv, "=", 2)[0]
+		switch name {
+		case "SOURCE_GPKG", "TARGET_GPKG", "OVERWRITE", "TILEMATRIXSET", "TILEMATRICES", "PAGESIZE", "KEEPPOINTSANDLINES", "IGNOREOUTSIDEGRID", "REVERSEWINDINGORDER":
+			continue
+		}
+		out = append(out, kv)
+	}
+	return append(out, extra...)
 }
